@@ -3,5 +3,6 @@ import Hidi.Float
 import Hidi.Engine
 import Hidi.Notes
 import Hidi.Spec
+import Hidi.SpecAxis
 import Hidi.Proto
 import Hidi.DevEngine
